@@ -438,6 +438,8 @@ class Run:
                 kw['event_parent_id'] = cur_event.event_id  # explicit parent id that happens to be the event being handled
         elif opts.get('parent'):
             kw['event_parent_id'] = opts['parent']
+        if opts.get('rtype'):
+            kw['event_result_type'] = {'str': str, 'int': int, 'list': list[int], 'dict': dict[str, int]}[opts['rtype']]
         if opts.get('prepath') is not None:
             # a caller-supplied event whose path already names buses (e.g. rebuilt from a WAL line and replayed)
             kw['event_path'] = [self.sc['buses'][b]['name'] for b in opts['prepath']]
